@@ -194,6 +194,7 @@ func (t Table) addRoute(d *RouteDef) error {
 
 func (t Table) weighRoute(d *RouteDef) error {
 	host, path := hostpath(d.Src)
+	host = strings.ToLower(host) // routes are always added lowercase
 
 	if d.Src == "" {
 		return errInvalidPrefix
@@ -284,7 +285,7 @@ func (t Table) delRoute(d *RouteDef) error {
 
 // route finds the route for host/path or returns nil if none exists.
 func (t Table) route(host, path string) *Route {
-	routes := t[host]
+	routes := t[strings.ToLower(host)] // routes are always added lowercase
 	if routes == nil {
 		return nil
 	}
